@@ -474,7 +474,9 @@ func (hookC13) event(x *fleetExec, e engine.Event) bool {
 				idx := nd.mapping.Index(a)
 				over = idx > math.MaxInt32 || idx < math.MinInt32
 			})
-			x.st.ProbeIf(over, "index-beyond-int32-offered")
+			if over {
+				x.st.Probe("index-beyond-int32-offered") // only a mapping that reports too large a bound gets here
+			}
 		}
 		badV := math.IsNaN(v) || math.Abs(v) > maxv || over
 		badW := w < 0
